@@ -32,9 +32,12 @@ CELL = {"G1": 144, "G2": 288, "GT": 576, "G1A": 97, "G2A": 193}                 
 _PROG = {}
 
 
-def prog(tag):
+TOWER_FILES = ["src/bls12_381/fq12.cpp", "src/bls12_381/fq6.cpp", "src/bls12_381/fq2.cpp"]
+
+
+def prog(tag, files=None):
     if tag not in _PROG:
-        _PROG[tag] = build.load_program("A", files=FILES, tag=tag)
+        _PROG[tag] = build.load_program("A", files=files or FILES, tag=tag)
     return _PROG[tag]
 
 
@@ -109,6 +112,7 @@ class World:
         self.I = MInterp(self.P)
         self.I.solver.set("timeout", 120000)
         self.G = Grp()
+        install_conversions(self)                      # registered first: they take precedence over dom_grp's versions of the same functions
         self.M = dom_grp.install(self.I, self.G)
         self.nfresh = 0
         install_codec(self)
@@ -134,6 +138,22 @@ class World:
 
     def stats(self, npaths, fns, sample):
         return {"queries": self.queries + getattr(self.I, "vc_count", 0), "paths": npaths, "functions": sorted(set(fns)), "sample": sample}
+
+
+def install_conversions(W):
+    """from_projective / from_affine: identity on formal group elements (C05), as in engine.dom_grp, but a source object that nothing has written
+    (the output of a decode that failed) is reported as a read of uninitialised memory instead of an engine limitation"""
+    def conv(src, dst):
+        def h(I_, name, args, site):
+            p = args[1]
+            if isinstance(p, Ptr) and p.obj is not None and is_conc(p.off) and not any(
+                    co < p.off + CELL[src] and co + cs > p.off for co, (cs, _) in p.obj.cells.items()):
+                raise MemViolation("uninit", "%s reads %s+%d, which nothing has written (output of a failed decode?)" % (short_fn(I_.callstack[-1]) if I_.callstack else name, p.obj.name, p.off))
+            W.M.write(args[0], dst, W.M.read(p, src))
+        return h
+    for g, PR, AR in (("G1", dom_grp.P1, dom_grp.A1), ("G2", dom_grp.P2, dom_grp.A2)):
+        W.I.add_intercept(r"void " + PR + r"::from_affine<.*>\(.*\)", conv(g + "A", g), g + "::from_affine")
+        W.I.add_intercept(AR + r"::from_projective\(.*\)", conv(g, g + "A"), g + "A::from_projective")
 
 
 def install_codec(W):
@@ -393,6 +413,18 @@ def uncovered(buf, size):
     return [k for k in range(size) if not cov[k]]
 
 
+def guarded(name, fn, *args):
+    """an access through / arithmetic on an IR `undef` (a local that is used before it is assigned) is a finding, not an engine limitation"""
+    try:
+        return fn(*args)
+    except MemViolation:
+        raise
+    except ExecError as e:
+        if "undef" in str(e):
+            raise Violation(name + ":undef", "the code uses an uninitialised value (undef in the IR of the current tree): %s" % e, None)
+        raise
+
+
 def forms(kind):
     return (False,) if kind.nocomp else (True, False)
 
@@ -407,3 +439,77 @@ def model_ints(mdl, *terms):
         if t is not None and not is_conc(t):
             out[str(t)] = mdl.eval(t, model_completion=True).as_long()
     return out
+
+
+# ---------------------------------------------------------------------------------------------------------------
+# the 576-byte token is justified here: the REAL Fq12 -> Fq6 -> Fq2 big-endian I/O over Fq::read/write_big_endian (48 bytes each, C02)
+# ---------------------------------------------------------------------------------------------------------------
+class FqSym:
+    def __init__(self, name):
+        self.name = name
+
+
+class FqBytes:
+    """the 48 bytes Fq::write_big_endian produces for a field element"""
+    def __init__(self, v):
+        self.v = v
+
+
+def fq12_io(tag, symbolic_n):
+    """symbolic_n False: write_big_endian into an exact 576-byte buffer writes 12 x 48 bytes, every coefficient exactly once (injective given C02), and
+    read_big_endian brings every coefficient back.  symbolic_n True: read_big_endian on an n-byte buffer (n >= 576 symbolic) of arbitrary bytes
+    stays inside it, and the value read can be written into an exact 576-byte buffer."""
+    P = prog(tag + "_tower", TOWER_FILES)
+    I = MInterp(P)
+    key = "fq12-io"
+
+    def h_w(I_, name, args, site):
+        I_._check_access(args[0], 48, 1, False)
+        I_._check_access(args[1], 48, 1, True)
+        c = args[0].obj.cells.get(args[0].off)
+        if c is None or not isinstance(c[1], FqSym):
+            raise MemViolation("uninit", "Fq::write_big_endian of something that is not a field element at %r" % (args[0],))
+        I_.store_cell(args[1].obj, args[1].off, 48, FqBytes(c[1]))
+
+    def h_r(I_, name, args, site):
+        I_._check_access(args[1], 48, 1, False)
+        I_._check_access(args[0], 48, 1, True)
+        c = args[1].obj.cells.get(args[1].off) if is_conc(args[1].off) else None
+        v = c[1].v if c is not None and c[0] == 48 and isinstance(c[1], FqBytes) else FqSym("read@%s" % (args[1].off,))
+        I_.store_cell(args[0].obj, args[0].off, 48, v)
+    I.add_intercept(B + r"Fq::write_big_endian\(.*\) const", h_w, "Fq::write_big_endian")
+    I.add_intercept(B + r"Fq::read_big_endian\(.*\)", h_r, "Fq::read_big_endian")
+    fw = P.find1(B + r"Fq12::write_big_endian\(.*\) const")
+    fr = P.find1(B + r"Fq12::read_big_endian\(.*\)")
+    src = Obj("a", GT_SIZE, "arg", 16)
+    for i in range(12):
+        src.cells[48 * i] = (48, FqSym("a%d" % i))
+    src.const = True
+    try:
+        if not symbolic_n:
+            buf = Obj("buf", GT_SIZE, "arg", 1)
+            I.call_named(fw, [Ptr(src, 0), Ptr(buf, 0)])
+            miss = uncovered(buf, GT_SIZE)
+            names = sorted(cv.v.name for co, (cs, cv) in buf.cells.items() if isinstance(cv, FqBytes) and cs == 48 and co % 48 == 0)
+            if miss or names != sorted("a%d" % i for i in range(12)):
+                raise Violation(key + ":write", "Fq12::write_big_endian does not write each of the 12 coefficients exactly once into 12 x 48 bytes (unwritten: %r, written: %r)" % (miss[:4], names), None)
+            buf.const = True
+            out = Obj("out", GT_SIZE, "arg", 16)
+            I.call_named(fr, [Ptr(out, 0), Ptr(buf, 0)])
+            bad = [i for i in range(12) if out.cells.get(48 * i, (0, None))[1] is not src.cells[48 * i][1]]
+            if bad:
+                raise Violation(key + ":read", "Fq12::read_big_endian(write_big_endian(a)) differs from a in coefficients %r" % bad, None)
+        else:
+            n = z3.BitVec("n", 64)
+            I.assumptions = [z3.UGE(n, GT_SIZE), z3.ULE(n, 1 << 20)]
+            buf = Obj("buf", n, "arg", 1, True)
+            out = Obj("out", GT_SIZE, "arg", 16)
+            I.call_named(fr, [Ptr(out, 0), Ptr(buf, 0)])
+            buf2 = Obj("buf2", GT_SIZE, "arg", 1)
+            I.call_named(fw, [Ptr(out, 0), Ptr(buf2, 0)])
+            if uncovered(buf2, GT_SIZE):
+                raise Violation(key + ":rewrite", "the value read cannot be written back into 576 bytes", None)
+    except MemViolation as e:
+        raise Violation("%s:%s" % (key, e.kind), "Fq12 big-endian I/O: %s" % e, None)
+    return {"queries": getattr(I, "vc_count", 0), "paths": 1, "functions": [P.demangled[fw], P.demangled[fr]],
+            "sample": "real Fq12/Fq6/Fq2 read/write_big_endian over 48-byte Fq tokens; 12 coefficients"}
